@@ -607,3 +607,91 @@ def reorder_tasks(tier, role):
                         'order, contract-respecting), timestamps symbolic in [1000,1005); glidesort modelled as a '
                         'stable sort on the Ord of the operator (timestamp only)' % (it, ln),
                  role=role, opts={'covers': ['two_sorted']}, budget=300)]
+
+
+# ------------------------------------------------------------------------------------ time-driven windows (C14)
+
+def time_window_harness(w, kind, size, slide, max_len):
+    """kind: 'session' (size = gap) | 'processing' (size, slide); durations and instants are u64 ticks.
+    The clock returns base + arbitrary non-decreasing offsets (each step 0..2*size+1 ticks)."""
+    if kind == 'session':
+        new = w.impls[(None, 'SessionWindow')]['new'][0]
+        build = w.impls[('WindowDescription', 'SessionWindow')]['build'][0]
+        proc = w.impls[('WindowManager', 'SessionWindowManager')]['process'][0]
+    else:
+        new = w.impls[(None, 'ProcessingTimeWindow')]['sliding'][0]
+        build = w.impls[('WindowDescription', 'ProcessingTimeWindow')]['build'][0]
+        proc = w.impls[('WindowManager', 'ProcessingTimeWindowManager')]['process'][0]
+    hlib.check_se_table(w)
+    maxcov = 1 if kind == 'session' else -(-size // slide)
+
+    def h(ex):
+        args = [Int('u64', size)] + ([Int('u64', slide)] if kind == 'processing' else [])
+        descr = ex.call_function(new, args)
+        mgr = ex.call_function(build, [Ref([descr], 0), ListAcc()])
+        script = hlib.gen_script(ex, 1, max_len, 'I', payload=id_payload)
+        # one clock reading per process() call
+        clock, t = [], Int('u64', 1000)
+        for i in range(len(script)):
+            d = ex.fresh_int('u64', 'dt%d' % i)
+            ex.assume(z3.ULE(d.v, 2 * size + 1))
+            t = ex.binop('Add', t, d)
+            clock.append(t)
+        ex.env['clock_script'] = list(clock)
+        outs = drive_manager(ex, proc, [mgr], script)
+        sx = lambda: {'kind': kind, 'size': size, 'slide': slide, 'script': [repr(e) for e in script],
+                      'clock': [repr(c) for c in clock], 'results': [[repr(r) for r in rs] for _, rs in outs]}
+        ids = [e.fields[0].v for e in script if e.variant == 'Item']
+        tick = {e.fields[0].v: clock[i] for i, e in enumerate(script) if e.variant == 'Item'}
+        cnt = {i: 0 for i in ids}
+        results = []
+        for i, rs in outs:
+            for r in rs:
+                items = [x.v for x in r.fields[0].items]
+                if not items:
+                    raise Violation('empty window result', hlib._wit(ex), sx())
+                if items != sorted(items) or len(set(items)) != len(items):
+                    raise Violation('window result does not keep arrival order', hlib._wit(ex), sx())
+                if items != list(range(items[0], items[0] + len(items))):
+                    raise Violation('window result is not a contiguous run of the arrival sequence', hlib._wit(ex), sx())
+                for x in items:
+                    if x not in cnt:
+                        raise Violation('window result contains an unknown element', hlib._wit(ex), sx())
+                    cnt[x] += 1
+                results.append(items)
+        # everything flushed by the end of the iteration (the FlushAndRestart call), covered 1..maxcov times
+        for x, n in cnt.items():
+            if n < 1:
+                raise Violation('element lost by the %s window (in no result after the end of the iteration)' % kind,
+                                hlib._wit(ex), sx())
+            if n > maxcov:
+                raise Violation('element in %d results (max %d)' % (n, maxcov), hlib._wit(ex), sx())
+        if kind == 'session':
+            # session semantics away from the boundary: gap exceeded => split, gap not reached => same session
+            sess = {x: k for k, its in enumerate(results) for x in its}
+            for a, b in zip(ids, ids[1:]):
+                diff = tick[b].z() - tick[a].z()
+                if sess[a] == sess[b]:
+                    check(ex, z3.ULE(diff, size), 'two elements further apart than the gap share a session', sx)
+                else:
+                    check(ex, z3.UGE(diff, size), 'two elements closer than the gap are in different sessions', sx)
+                    hlib.cover(ex, 'split')
+        elif len(results) > 1:
+            hlib.cover(ex, 'split')
+        return sx()
+    return h
+
+
+def time_window_tasks(tier, role):
+    ts = []
+    L = 4 if tier == 'quick' else 5
+    cfgs = [('session', 3, 0), ('processing', 3, 3), ('processing', 4, 2)]
+    if tier != 'quick':
+        cfgs += [('session', 1, 0), ('processing', 3, 1), ('processing', 5, 2)]
+    for kind, size, slide in cfgs:
+        ts.append(Task('%s_z%d_s%d' % (kind, size, slide), 'time_window_harness',
+                       {'kind': kind, 'size': size, 'slide': slide, 'max_len': L},
+                       bounds='%s window manager, size/gap=%d slide=%d ticks; 1 iteration x <=%d items; the clock '
+                              'returns arbitrary non-decreasing instants (each step 0..%d ticks, symbolic)' %
+                              (kind, size, slide, L, 2 * size + 1), role=role, opts={'covers': ['split']}, budget=300))
+    return ts
